@@ -71,6 +71,11 @@ CHECKS = {
             'Pass-through at every data point, zero (value and derivatives) outside incl. adjacent floats, xy == x/y bit-identically, derivatives against Richardson differences of the interpolant; TableReader exact data points, linear interpolant, zero outside; plot row count, abscissae and ordinates.',
             'Trusted: scipy builds the documented cubic spline; Richardson extrapolation error model.',
             'DESIGN.md 4/C18'),
+    'C17': (E3, 'fault_enumeration',
+            'failure-point enumeration on the real code: count pass, then one execution per failing evaluation k = 1..N for every target (Python API with counting/raising proxies and a recording sink, followed by a second write() on the same object; potable main() in-process with a formula leaving its domain at every row of every function; real subprocess runs)',
+            'All N crash points of every target are executed (N = 12..100 on the small grids used); the sink must have received nothing when write() raised, the named output file must be absent or empty, and a retry on the same object must be all-or-nothing.',
+            'Failure model: an exception from a model callable / a formula outside its domain. OS-level faults (disk full, kill) are not modelled.',
+            'DESIGN.md 4/C17'),
 }
 
 NOT_YET = 'check not built yet in this revision of /verif (bounded exhaustive exploration applies; see DESIGN.md section 4)'
